@@ -22,6 +22,7 @@ mod ksim;
 mod tsim;
 mod ssim;
 mod wsim;
+mod xsim;
 mod lsim;
 mod mon;
 mod prng;
@@ -84,7 +85,7 @@ fn selftest(checks: &[Box<dyn common::Check>]) -> i32 {
     let n: u64 = std::env::var("VERIF_SELFTEST_RUNS")
         .ok()
         .and_then(|v| v.parse().ok())
-        .unwrap_or(6);
+        .unwrap_or(7);
     let mut bad = 0;
     for c in checks {
         let hashes: Vec<Vec<u64>> = (0..2)
